@@ -55,6 +55,7 @@ func (f PicklerFunc) Pickle(x starlark.Value) (module, name string, args starlar
 type Encoder struct {
 	w       writer
 	memo    map[starlark.Value]int
+	next    int
 	pickler Pickler
 }
 
@@ -78,8 +79,9 @@ func (e *Encoder) memoized(x starlark.Value) (int, bool) {
 
 func (e *Encoder) memoize(x starlark.Value) {
 	if reflect.TypeOf(x).Comparable() {
-		id := len(e.memo)
-		e.memo[x] = id
+		// IDs count MEMOIZE opcodes, as the decoder does, even if a value is memoized twice.
+		e.memo[x] = e.next
+		e.next++
 
 		e.w.WriteByte(opMEMOIZE)
 	}
